@@ -101,8 +101,21 @@ def run(ctx):
         if gen.size(f) <= 12 and gen.temporal_count(f) <= 5:
             fam_d.append({'K': gen.rand_kripke(rnd, rnd.choice([2, 3, 4, 5])), 'f': f,
                           'naming': rnd.choice(['int', 'str', 'tuple']), 'shuf': rnd.randrange(1 << 30)})
-    fam_e = [dict(c, mode='text') for c in gen.samp(rnd, fam_a + fam_c, 800 if q else 15000)]
-    fams = [('scope2', fam_a), ('catalogue3', fam_b), ('nested', fam_c), ('random', fam_d), ('text', fam_e)]
+    # n-ary and/or (arity 3-4) directly under a quantifier, mixing state and path operands
+    temporal = [g for g in gen.path_un(M0) + gen.path_bi(M0) if g[0] in 'XFGUR']
+    temporal += [('not', g) for g in temporal[:10]] + [(o, g) for o in 'XFG' for g in temporal[:6]]
+    fam_n = []
+    for _ in range(3000 if q else 60000):
+        k = rnd.choice([3, 3, 4])
+        ops = [rnd.choice(temporal) if rnd.random() < 0.55 else rnd.choice(M0 + [TR, FA]) if rnd.random() < 0.5 else rnd.choice(inner)
+               for _ in range(k)]
+        g = (rnd.choice(['and', 'or']),) + tuple(ops)
+        if rnd.random() < 0.2:
+            g = (rnd.choice(['not', 'X', 'F', 'G']), g)
+        if gen.temporal_count(g) <= 4:
+            fam_n.append({'K': rnd.choice(scope3), 'f': (rnd.choice('AE'), g)})
+    fam_e = [dict(c, mode='text') for c in gen.samp(rnd, fam_a + fam_c + fam_n, 800 if q else 15000)]
+    fams = [('scope2', fam_a), ('catalogue3', fam_b), ('nested', fam_c), ('nary', fam_n), ('random', fam_d), ('text', fam_e)]
     for _, fam in fams:
         for c in fam:
             c['logic'] = 'CTLS'
